@@ -431,6 +431,27 @@ def findLongestCur {σ} := @findLongestG σ Gen.PanicGuards.acronymAsciiGuard
 def ContAfterNonAscii (text : Bytes) : Prop :=
   ∀ j b c, text[j]? = some b → text[j + 1]? = some c → Edits.isCont c = true → 128 ≤ b.toNat
 
+/-! ### scanner.rs::process_file_content — `$N` expansion of `replace` in regex mode -/
+
+/-- One capture group: `cap` = its text (`none` = the group took no part in this match), `mentioned` = the replacement
+    contains `$i`.  The code as it is: `if let Some(cap) = captures.get(i) { replace }` — an unset group is skipped.
+    `captures[i]` (regex's `Index` impl) instead PANICS for an unset group.  Outer `none` = panic; the inner value is the
+    text substituted, if any. -/
+def expandGroupGet (cap : Option Bytes) (_mentioned : Bool) : Option (Option Bytes) := some cap
+def expandGroupIndex (cap : Option Bytes) (mentioned : Bool) : Option (Option Bytes) :=
+  if mentioned then cap.map some else some none
+
+def expandGroupCur (cap : Option Bytes) (mentioned : Bool) : Option (Option Bytes) :=
+  if Gen.PanicGuards.capturesGetChecked then expandGroupGet cap mentioned else expandGroupIndex cap mentioned
+
+/-- the loop over groups `1..captures.len()` -/
+def expandAll (step : Option Bytes → Bool → Option (Option Bytes)) : List (Option Bytes × Bool) → Option (List (Option Bytes))
+  | [] => some []
+  | (c, m) :: rest =>
+    match step c m, expandAll step rest with
+    | some x, some xs => some (x :: xs)
+    | _, _ => none
+
 /-! ### main.rs — exit status -/
 
 def containsSub (msg sub : Bytes) : Bool := (B.find msg sub).isSome
